@@ -44,8 +44,10 @@ type responseWriter struct {
 	size        int          // The written size of the response.
 	beforeFuncs []BeforeFunc // The list of functions to be called before written to the response.
 
-	callBeforeOnce  sync.Once
-	writeHeaderOnce sync.Once
+	callBeforeOnce sync.Once
+
+	writeHeaderLock sync.Mutex // Guards the status being handed to the underlying writer.
+	headerWritten   bool       // Whether the underlying writer has taken the status.
 }
 
 // BeforeFunc is a function that is called before the ResponseWriter is written.
@@ -69,10 +71,18 @@ func (w *responseWriter) WriteHeader(s int) {
 	// The before functions are called once on their own, so that the status can
 	// still be sent (e.g. by the Recovery) after one of them has panicked.
 	w.callBeforeOnce.Do(w.callBefore)
-	w.writeHeaderOnce.Do(func() {
-		w.ResponseWriter.WriteHeader(s)
-		atomic.StoreInt32(&w.status, int32(s))
-	})
+
+	// The status only counts as sent once the underlying writer has taken it, so
+	// that it can still be sent (e.g. by the Recovery) after the underlying writer
+	// has refused one by panicking (e.g. an invalid status code).
+	w.writeHeaderLock.Lock()
+	defer w.writeHeaderLock.Unlock()
+	if w.headerWritten {
+		return
+	}
+	w.ResponseWriter.WriteHeader(s)
+	w.headerWritten = true
+	atomic.StoreInt32(&w.status, int32(s))
 }
 
 func (w *responseWriter) Write(b []byte) (size int, err error) {
